@@ -176,7 +176,7 @@ func (g *Gen) Expr(d int) *E {
 	if d <= 0 || g.pick(5) == 0 {
 		return g.Leaf()
 	}
-	switch n := g.pick(26); {
+	switch n := g.pick(28); {
 	case n < 5:
 		g.count("expr:math")
 		return Math(mathOps[g.pick(len(mathOps))], g.Expr(d-1), g.Expr(d-1))
@@ -249,6 +249,18 @@ func (g *Gen) Expr(d int) *E {
 	case n == 23:
 		g.count("expr:suppress-paren")
 		return Suppress(g.Expr(d - 1))
+	case n == 24:
+		// LIKE / NOT LIKE with a glob from the modelled subset (* ? literals)
+		g.count("expr:like")
+		subj := []*E{Str("abc"), Str("a"), Str(""), Str("abbc"), Param("s"), Str("x y"), Str("10"), g.Leaf()}[g.pick(8)]
+		pat := []string{"a*", "*c", "a?c", "*", "??", "abc", "a*c", "", "x*y", "1?", "*b*"}[g.pick(11)]
+		return &E{K: "like", Neg: g.pick(3) == 0, A: subj, B: Str(pat)}
+	case n == 25:
+		// =~ / !~ with a regular expression from the modelled subset
+		g.count("expr:regex")
+		subj := []*E{Str("abc"), Str("a"), Str(""), Str("abbc"), Param("s"), Str("x y"), Str("10"), Int(105)}[g.pick(8)]
+		pat := []string{"a", "b+c", "^a", "c$", "^a.*c$", "x?a", "a.c", "10*", "^$", " ", "b*", "^b"}[g.pick(12)]
+		return &E{K: "regex", Neg: g.pick(3) == 0, A: subj, B: Str(pat)}
 	default:
 		if d < 2 {
 			return g.Leaf()
